@@ -116,15 +116,20 @@ def outputs_of(run, names, by_chrom):
     return out
 
 
-def judge(res, scratch, g, comps, req, by_chrom, root, flip, what):
+def judge(res, scratch, g, comps, req, by_chrom, root, flip, what, lfirst=False):
     import os
 
     names = req.split(",")
     badnames = [c.chrom for c in comps if getattr(c, "bad", None)]
     res.next_call()
-    run = oc.run_order(scratch, g.text(), req, by_chrom=by_chrom, root=root, flip=flip, tag="a")
+    gtext = g.text()
+    if lfirst:
+        # the same graph with its L lines before its S lines (and the S lines in reverse order)
+        ls = [l for l in gtext.split("\n") if l]
+        gtext = "".join(l + "\n" for l in [x for x in ls if x.startswith("L")] + [x for x in ls if not x.startswith("L")][::-1])
+    run = oc.run_order(scratch, gtext, req, by_chrom=by_chrom, root=root, flip=flip, tag="a")
     res.evaluations += 1
-    case = {"gfa": g.text(), "chromosome_order": req, "by_chrom": by_chrom, "root": root, "flip": flip, "bad": badnames,
+    case = {"gfa": g.text(), "chromosome_order": req, "by_chrom": by_chrom, "root": root, "flip": flip, "bad": badnames, "lfirst": lfirst,
             "hashseed": int(os.environ.get("PYTHONHASHSEED", "0"))}
     if any(n in badnames for n in names):
         res.nt(fw.h64([g.text(), req, by_chrom, root, flip]))
@@ -144,7 +149,7 @@ def judge(res, scratch, g, comps, req, by_chrom, root, flip, what):
     rest = [n for n in names if n not in badnames]
     if not rest:
         return
-    ref = oc.run_order(scratch, g.text(), ",".join(rest), by_chrom=by_chrom, root=root, flip=flip, tag="b")
+    ref = oc.run_order(scratch, gtext, ",".join(rest), by_chrom=by_chrom, root=root, flip=flip, tag="b")
     if ref.outcome.kind != "ok":
         return  # the reference request itself fails: not this property's business
     a, b = outputs_of(run, rest, by_chrom), outputs_of(ref, rest, by_chrom)
@@ -161,7 +166,8 @@ def judge(res, scratch, g, comps, req, by_chrom, root, flip, what):
 
 def shard_single_shape(res, scratch, spec):
     nchrom, shape = spec["nchrom"], spec["shape"]
-    slots = [("chr1", 0, "hA#1#c"), ("chr2", 40, "hB#1#c"), ("chr3", 80, "hC#1#c")][:nchrom]
+    # the second name contains the first ("chr1" is a prefix of "chr12")
+    slots = [("chr1", 0, "hA#1#c"), ("chr12", 40, "hB#1#c"), ("chr3", 80, "hC#1#c")][:nchrom]
     # every non-empty subset of the chromosomes is replaced by the non-chain shape
     for k in range(1, nchrom + 1):
         for badset in itertools.combinations(range(nchrom), k):
@@ -178,7 +184,10 @@ def shard_single_shape(res, scratch, spec):
                         judge(res, scratch, oc.stale_tagged(g), comps, req, by_chrom, None, False,
                               f"[{shape} at {[allnames[i] for i in badset]}, input already carries BO/NO tags] --chromosome_order {req}{' --by-chrom' if by_chrom else ''}")
                         res.count("runs_on_already_tagged_input")
-    res.sample({"shape": shape, "chromosomes": nchrom, "example_request": "chr2,chr1"})
+                        judge(res, scratch, g, comps, req, by_chrom, None, False,
+                              f"[{shape} at {[allnames[i] for i in badset]}, L lines before S lines] --chromosome_order {req}{' --by-chrom' if by_chrom else ''}", lfirst=True)
+                        res.count("runs_with_links_before_segments")
+    res.sample({"shape": shape, "chromosomes": nchrom, "example_request": "chr12,chr1"})
 
 
 def shard_reused_outdir(res, scratch):
@@ -371,5 +380,5 @@ def replay(case, scratch):
         c.g, c.chrom = sub, max(set(names), key=names.count) if names else "?"
         c.bad = "replay" if c.chrom in case["bad"] else None
         comps.append(c)
-    judge(res, scratch, g, comps, case["chromosome_order"], case["by_chrom"], case["root"], case["flip"], "replay")
+    judge(res, scratch, g, comps, case["chromosome_order"], case["by_chrom"], case["root"], case["flip"], "replay", lfirst=bool(case.get("lfirst")))
     return res.failures
